@@ -149,3 +149,7 @@ Definition dump_obs (o : fobs) : list N :=
   end.
 Definition dump_case (c : case) : list (list N) :=
   map dump_obs (snd (run FOps [] (c_ops c))).
+
+(* the outputs of the last operation of a run on the float instance (used by the refutation witnesses) *)
+Definition last_out (ops : list fop) : list float :=
+  match last (snd (run FOps [] ops)) BDead with BOut o => o | _ => [] end.
